@@ -61,6 +61,16 @@ CHECKS = {
          "Claim types and fields are discovered by reflection; for every single-field mutant pair the real attestation key must differ when the field is on the property's list, and a three-way differential run on forks of the real app (honest votes X / honest votes X' / byzantine X' first then honest X) through the real msg server, Attest, the skyway end-blocker and the attestation handler must show that pooled votes never produce a different effect. Held = held on the generated pairs.",
          "Single-field differences only (as the property quantifies); collision resistance of the hash assumed; key model cross-checked against the keys the keeper really writes and against a real ABCI block in every case.",
          "DESIGN.md §2 C11"),
+ "C12": ("exploration", "chain+world",
+         "reference model of the liveness rules (TTL, grace period, network protection, sentence ladder, version gate) against 2300-4500-block ABCI histories of the real app with generated validator address byte patterns",
+         "Histories of the real app with real keep-alive, unjail, stake and governance txs; validator keys are drawn until the operator address has a wanted byte class (0x2c at start/middle/end/twice, 0x00, near-0x2c); keep-alive cadences sit around the 2000-block lifetime, unjail blocks hit the last grace block, a whale moves stake to the exact 25% boundary, block time jumps walk the sentence ladder. At every liveness check the model decides must-be-jailed / must-not-be-jailed from the monitor's own log of accepted keep-alives, unjails and stakes; versions are compared with an independent SemVer implementation; the minimum never decreases. Held = held at those checks.",
+         "A validator that never sent a keep-alive must be jailed only once older than the lifetime; the 25% test is order-tolerant within one sweep; jailing inside the grace period is not forbidden by the statement.",
+         "DESIGN.md §2 C12"),
+ "C14": ("exploration", "chain+world",
+         "set-comprehension reference model over snapshot / fee / metrics / trait tables and queue contents read at the same boundary + exact big.Rat fee arithmetic, on real-app histories and what-if forks",
+         "Histories of the real app (jobs by accounts and 32-byte contract senders incl. MEV, valset updates, batches, uploads; ties in fees, missing fee/account/metrics records, late pigeons, key rotation, per-chain addresses); after every block every new or re-assigned message and batch must be assigned to a validator that is in the snapshot, has an account on the chain in that snapshot entry (= the signed relayer address), fee and metrics records and the MEV trait when demanded; a failed request leaves nothing queued; for every validator on every chain GetMessagesForRelaying (keeper and gRPC) must return exactly the set the five conditions of the statement define; elected fees must equal ceil(mult*gas), ceil(rate*relayer fee) in exact rationals; the real pick and job execution are also run on forks at five block times. Held = held on those boundaries.",
+         "'older message of the same sender still pending' = in the queue without a delivery or error report (matches the statement's wording and the code).",
+         "DESIGN.md §2 C14"),
  "C15": ("exploration", "chain+world",
          "math/big reference model of tax, refund, burn and limit windows against the real app (direct-mode histories at window edges, enumerated edge grids, one full ABCI flow with real governance)",
          "Random direct-mode histories (amounts up to 2^256-1, decimal and fractional rates, exemption lists, all periods, heights walking through start+L-2..start+L+1, reconfiguration mid-history, batches executed or timed out), enumerated window-edge and tax grids, and an ABCI flow through real governance, ante and end-blockers; every send, cancel, execution and rejected send is compared with an exact big-integer model written from the statement; a keeper probe on a fork checks that a rejected transfer consumes no allowance. Held = held on those operations.",
